@@ -13,7 +13,7 @@ From Chiri Require Import Base.Bytes Base.Res Model.Finders Model.Format Spec.Ra
       only the next line blank     : the residue, the line break and the content of the next line  - a stay a;
       both blank                   : the previous blank line, the residue, the line break and the next
                                      line's content  - a + b blank lines become a + b - 1.
-    (Hypothesis 1 <= ls: the tag line is not the first line of the file; see C13_known_finding_KF1.) *)
+    (Hypothesis 1 <= ls: the tag line is not the first line of the file; see C13_first_line_block_fixed.) *)
 Theorem C13_seam_hull_partial :
   forall s ls p,
     wf_utf8 s = true -> nth_error s p = Some NL -> is_boundary s p = true ->
@@ -44,17 +44,29 @@ Theorem C13_inline_seam_untouched :
 Proof. exact seam_not_at_line_break. Qed.
 Print Assumptions C13_inline_seam_untouched.
 
-(** Known finding KF1 (listed in known_findings.json), as a theorem about the faithful model: when
-    the tag line is the first line of the file and indented, the line break is deleted but the
-    indentation residue is not, so the next surviving line is joined to the residue. *)
-Theorem C13_known_finding_KF1 :
+(** The repair of known finding KF1 (listed in known_findings.json), as a theorem about the faithful
+    model: when the tag line is the first line of the file and indented, the indentation residue is
+    deleted together with the line break (before the repair the result was [Ok (p, p + 1)]: the line
+    break went, the residue stayed and the next surviving line was joined to it). *)
+Theorem C13_first_line_block_fixed :
   forall s p,
     wf_utf8 s = true -> nth_error s p = Some NL -> is_boundary s p = true -> 1 <= p ->
     (forall i b, i < p -> nth_error s i = Some b -> is_blank b = true) ->
     next_line_not_blank s p ->
-    format_block s p = Ok (p, p + 1).
-Proof. exact seam_at_file_start. Qed.
-Print Assumptions C13_known_finding_KF1.
+    format_block s p = Ok (0, p + 1).
+Proof. exact seam_at_file_start_fixed. Qed.
+Print Assumptions C13_first_line_block_fixed.
+
+(** The first-line companion for a blank next line: the blanks of the first line, the line break and
+    the content of the blank next line go, the line break of the latter stays. *)
+Theorem C13_first_line_block_next_blank :
+  forall s p q',
+    wf_utf8 s = true -> nth_error s p = Some NL -> is_boundary s p = true ->
+    (forall i b, i < p -> nth_error s i = Some b -> is_blank b = true) ->
+    next_line_blank s p q' ->
+    format_block s p = Ok (0, q').
+Proof. exact seam_at_file_start_next_blank. Qed.
+Print Assumptions C13_first_line_block_next_blank.
 
 (** Document level, ONE block (Proofs/BlockDoc.v): the document is
       A ++ "\n" ++ ind ++ <opening tag> ++ mid ++ <closing tag> ++ "\n" ++ Z
@@ -150,7 +162,7 @@ Example C13_single_block_example : _ := block_example.
     validated by the oracle of this check on generated block documents. *)
 
 (** Non-vacuity: "x\n  \ny" (block removed between x and y, residue "  "): the whole residue line goes;
-    "  \ny" at the start of the file: only the line break goes (KF1). *)
+    "  \ny" at the start of the file: the residue and the line break go (KF1 repaired; it was (2, 3)). *)
 Example C13_example :
-  format_block [120;10;32;32;10;121]%N 4 = Ok (2, 5) /\ format_block [32;32;10;121]%N 2 = Ok (2, 3).
+  format_block [120;10;32;32;10;121]%N 4 = Ok (2, 5) /\ format_block [32;32;10;121]%N 2 = Ok (0, 3).
 Proof. vm_compute. split; reflexivity. Qed.
